@@ -196,6 +196,13 @@ def history(ctx, rng, desc, hid):
                         ctx.violation("rtr-not-sent", f"remote_request() on an enabled map that allows RTR sent {[f.brief() for f in sent]}", case())
                 elif sent:
                     ctx.violation("rtr-sent-when-not-allowed", f"remote_request() on enabled={cm.enabled} rtr_allowed={cm.rtr_allowed} sent {[f.brief() for f in sent]}", case())
+            elif r < 0.88 and collide and "B" in listeners:
+                # map B moves to another COB-ID: frames on the old one are no longer its business
+                ops.append(("readdress", "B"))
+                cmaps["B"].cob_id = other_cob + 0x20
+                cmaps["B"].subscribe()
+                listeners.remove("B")
+                ctx.case((f"{pk}->{ck}", "readdress"), nontrivial=True)
             elif r < 0.93:
                 # unrelated traffic must not touch any map
                 before = snapshot()
@@ -257,6 +264,8 @@ def run_waits(ctx, desc):
         case = {"workload": "waits", "fields": [(R.NAMES[d], ln) for d, ln in fields]}
         if status in ("hung", "never-waited"):
             ctx.inconc(f"wait_for_reception: {status}", case)
+        elif status == "not-woken":
+            ctx.violation("waiter-not-woken", "the frame was delivered to the consumer but the reader waiting in wait_for_reception() was not woken", case)
         elif status != "returned" or val != sent.get("ts"):
             ctx.violation("wait-for-reception", f"wait_for_reception ended {status} with {val!r}, frame timestamp {sent.get('ts')!r}", case)
         # nothing arrives -> None; a frame that arrived before the wait does not count
